@@ -644,6 +644,7 @@ fn main() {
                     let mut sub = Sub(&assoc);
                     sub.visit_impl_item_fn_mut(&mut f);
                 }
+                if d.opts.iter().any(|o| o == "private") { f.vis = syn::Visibility::Inherited; }
                 if emit_canaries { canary = canary_for(&f.sig, &d.header, Some(&imp)); }
                 n.run_fn(&mut f.sig, &mut f.block, d.ret.is_some());
                 imp.attrs.clear();
